@@ -6,7 +6,7 @@ EXTENDS Rdh, Payload, TLC, Json, IOUtils
 Rec == ndJsonDeserialize(IOEnv.TRACE)
 VARIABLES l, layout, total
 Init == l = 1 /\ layout = << >> /\ total = 0
-Why(tag, ev) == PrintT(<<"REJECT", l, tag, ev.off, ev.code>>)     \* reported, and the rest of the trace is still judged
+Why(tag, ev) == PrintT("REJECT " \o ToJson([l |-> l, tag |-> tag, off |-> ev.off, code |-> ev.code]))     \* reported, and the rest of the trace is still judged
 \* layout: sequence of [off, size, df]
 IsRdhStart(off) == \E i \in 1..Len(layout) : layout[i].off = off
 IsWordStart(off) == \E i \in 1..Len(layout) :
